@@ -82,8 +82,11 @@ func (b *ClassifierBackend) ClassifyLicenses(numTasks int, filenames []string, h
 	var wg sync.WaitGroup
 	analyze := func(filename string) {
 		defer func() {
-			wg.Done()
+			// Return the token before signalling completion: once the last
+			// wg.Done() is through, the closing goroutine may close(task), and a
+			// send on a closed channel panics.
 			task <- true
+			wg.Done()
 		}()
 		if err := b.classifyLicense(filename, headers); err != nil {
 			errs <- err
